@@ -225,6 +225,8 @@ Record call := mkCall {
   c_value : str;
   c_domain : option str;
   c_expires : option Z;        (* `expires` as a POSIX timestamp (ints; datetimes go through calendar.timegm) *)
+  c_expires_days : option Z;   (* `expires_days` (whole days) *)
+  c_now : Z;                   (* the clock at the call: timegm(datetime.now(utc)) *)
   c_path : option str;         (* the default "/" is made explicit by the caller *)
   c_max_age : option Z;
   c_httponly : bool;
@@ -236,17 +238,19 @@ Record call := mkCall {
 Inductive op :=
 | OpSet (c : call)
 | OpClear (c : call)     (* clear_cookie(name, **kw): value := "", max_age absent;
-                            c_expires carries timegm(now - 365 d) *)
+                            c_expires is ignored (clear_cookie refuses the keyword) *)
 | OpSigned (c : call).   (* set_signed_cookie: c_value carries create_signed_value(...) (opaque),
-                            c_expires carries timegm(now + expires_days) *)
+                            c_expires / c_expires_days as passed (expires_days defaults to 30) *)
 
 Definition lower (o : op) : call :=
   match o with
   | OpSet c => c
   | OpSigned c => c
   | OpClear c =>
-      mkCall (c_name c) [] (c_domain c) (c_expires c) (c_path c) None
-             (c_httponly c) (c_secure c) (c_samesite c)
+      (* set_cookie(name, value="", expires=now - 365 days, **kwargs): an expires_days
+         keyword is passed through, and loses against the explicit expires *)
+      mkCall (c_name c) [] (c_domain c) (Some (c_now c - 31536000)%Z) (c_expires_days c) (c_now c)
+             (c_path c) None (c_httponly c) (c_secure c) (c_samesite c)
   end.
 
 (* ------------------------------------------------------------------ *)
@@ -260,11 +264,25 @@ Definition kv (k v : str) : str := k ++ 61 :: v.
 Definition opt_kv (k : str) (o : option str) : list str :=
   match truthy o with Some v => [kv k v] | None => [] end.
 
-(* `if expires: morsel["expires"] = httputil.format_timestamp(expires)` (0 is falsy) *)
-Definition exp_text (c : call) : option str :=
+(* `if expires_days is not None and not expires: expires = now + timedelta(days=expires_days)`
+   "if both are set, expires is used" (0 / None are falsy; a datetime is always truthy) *)
+Inductive eff_expiry := EffNone | EffTs (t : Z) | EffDays (t : Z).
+Definition days_path (c : call) : eff_expiry :=
+  match c_expires_days c with
+  | Some d => EffDays (c_now c + 86400 * d)
+  | None => EffNone
+  end.
+Definition effective_expiry (c : call) : eff_expiry :=
   match c_expires c with
-  | Some t => if (t =? 0)%Z then None else Some (format_ts t)
-  | None => None
+  | Some t => if (t =? 0)%Z then days_path c else EffTs t
+  | None => days_path c
+  end.
+
+(* `expires_text = httputil.format_timestamp(expires) if expires else None` *)
+Definition exp_text (c : call) : option str :=
+  match effective_expiry c with
+  | EffNone => None
+  | EffTs t | EffDays t => Some (format_ts t)
   end.
 
 (* `if max_age is not None: morsel["max-age"] = str(max_age)` *)
@@ -318,10 +336,13 @@ Definition expiry_outcome (t : Z) : outcome :=
   else if ((-9223372036854775808 <=? t) && (t <? 9223372036854775808))%Z then OSErr
   else OverflowErr.
 
+(* datetime.now() + timedelta(days) outside years 1..9999: OverflowError
+   ("date value out of range"), raised before format_timestamp is reached *)
 Definition expiry_check (c : call) : outcome :=
-  match c_expires c with
-  | Some t => if (t =? 0)%Z then Ok else expiry_outcome t
-  | None => Ok
+  match effective_expiry c with
+  | EffNone => Ok
+  | EffTs t => expiry_outcome t
+  | EffDays t => if ((-62135596800 <=? t) && (t <? 253402300800))%Z then Ok else OverflowErr
   end.
 
 (* order of the checks in set_cookie: value, then name/domain/path/samesite, then the
